@@ -27,12 +27,12 @@ TEXT = {
     "C03.injection-name": "A_<single>::wideX calls exactly First::x; A_<multi>::wideX calls First::x and Rest::wideX; S_<headed>::deepX calls Head::wideX and Head::x "
                           "(the callback the wrapper is named after, nothing else)",
     "C03.activation": "RV_<Automatic>: both converting constructors end in initialEnter(), the destructor calls finalExit(); RV_<Manual>::enter/exit call "
-                      "initialEnter/finalExit; finalExit calls apex deepExit before registry.clear()",
+                      "initialEnter/finalExit; finalExit and reset call apex deepExit before registry.clear() (the teardown walk reads the registry), reset re-enters after it",
     "C03.access": "R_::access<T>() is static_cast<T&>(_apex): handler `this` and access<T>() denote the same sub-object; no state record is passed or returned by value",
 }
 
 MIN_INSTANCES = {"C03.order": 10, "C03.prong-origin": 10, "C03.pairing": 4, "C03.cs-dispatch": 44, "C03.callers": 10,
-                 "C03.injection-name": 20, "C03.activation": 4, "C03.access": 1}
+                 "C03.injection-name": 20, "C03.activation": 5, "C03.access": 1}
 
 LIFECYCLE = ("enter", "exit", "reenter", "entryGuard", "exitGuard", "update", "preUpdate", "postUpdate", "react", "preReact", "postReact",
              "query", "planSucceeded", "planFailed", "select", "rank", "utility")
@@ -366,8 +366,11 @@ def check_activation(ctx, F):
             ctx.instance("C03.activation", site, {"function": site, "loc": F.floc(fid), "calls": names})
             if names != [want]:
                 ctx.violation("C03.activation", site, "%s (%s)" % (site, F.floc(fid)), "%s calls %s, expected [%s]" % (site, names, want), {})
-    for fid, b in insts(F, "R_", {"finalExit"}):
-        site = "R_::finalExit"
+    # the teardown walk finds the entered states through the registry: it runs before the registry is cleared (finalExit, reset), and the
+    # re-activation of reset() after it
+    for fid, b in insts(F, "R_", {"finalExit", "reset"}):
+        site = "R_::" + b["name"]
+        want = ["exit", "clear"] if b["name"] == "finalExit" else ["exit", "clear", "enter"]
         bad = None
         for p in paths_of(ctx, F, fid):
             seq = []
@@ -376,13 +379,17 @@ def check_activation(ctx, F):
                     cf = F.fn(ev[2])
                     if cf["name"] == "deepExit":
                         seq.append("exit")
+                    elif cf["name"] == "deepEnter":
+                        seq.append("enter")
                     elif cf["name"] == "clear" and ev[3] is not None and ev[3].endswith(".registry"):
                         seq.append("clear")
-            if seq != ["exit", "clear"]:
+            if seq != want:
                 bad = seq
         ctx.instance("C03.activation", site, {"function": site, "loc": F.floc(fid)})
         if bad is not None:
-            ctx.violation("C03.activation", site, "%s (%s)" % (site, F.floc(fid)), "finalExit sequence %s, expected [_apex.deepExit, registry.clear]" % bad, {})
+            ctx.violation("C03.activation", site, "%s (%s)" % (site, F.floc(fid)),
+                          "%s sequence %s, expected %s (_apex.deepExit reads the registry to find the entered states: it precedes registry.clear(); "
+                          "the re-activation follows it)" % (b["name"], bad, want), {})
 
 
 def check_access(ctx, F):
